@@ -18,7 +18,7 @@ SPEC = {
     "C07": [("MD.Props.C07", None)],
     "C08": [("MD.Props.C08", None)],
     "C09": [("MD.Props.C09", None)],
-    "C10": [("MD.Props.C10", None)],
+    "C10": [("MD.Props.C10", None), ("MD.Props.C10b", None)],
     "C11": [("MD.Props.C11", None), ("MD.Props.C11b", None)],
     "C12": [("MD.Props.C12", None), ("MD.Props.C12b", None)],
     "C13": [("MD.Props.C13", None)],
